@@ -126,6 +126,8 @@ def sign_role(ctx, f, an, bn):
         es = strip(e)
         if es.k == "call" and es.a[0].name == "from_residual":
             continue
+        if es.k == "agg" and es.a[0].endswith("Result::Err"):
+            continue
         if not (es.k == "agg" and es.a[0].endswith("Result::Ok")):
             return False, "returns %s" % short(es, 120)
         v = strip(es.a[1]["0"])
@@ -160,9 +162,11 @@ def sign_role(ctx, f, an, bn):
             if digest_of_msg(ctx, an, d, 2) != "bytes":
                 return False, "digest is %s, expected keccak256 over the whole message" % short(d, 160)
         elif bn == "ed25519":
-            if not (inner.k == "call" and inner.a[0].name == "to_bytes" and inner.a[1]):
-                return False, "signature bytes are %s" % short(inner, 120)
-            sig = strip(inner.a[1][0])
+            # sign(..).to_bytes().to_vec()  or  sign(..).to_vec()  (the 64-byte form either way)
+            if inner.k == "call" and inner.a[0].name == "to_bytes" and inner.a[1]:
+                sig = strip(inner.a[1][0])
+            else:
+                sig = inner
             if not (sig.k == "call" and sig.a[0].name in ("sign", "try_sign") and len(sig.a[1]) == 2):
                 return False, "signature comes from %s" % short(sig, 120)
             if P.match(sig.a[1][0], P.param(1)) is None or P.match(sig.a[1][1], P.param(2)) is None:
